@@ -6,7 +6,8 @@
    CRead: arbitrary wire bytes read with FakeTLS.Read (sizes ks): data and final error.
    CHello: readServerHello (through FakeTLS.Handshake) on a scripted server answer; the
      harness passes the HMAC-SHA256 value of the message it expects the code to authenticate
-     (oracle input, computed with crypto/hmac) and that message. *)
+     (oracle input, computed with crypto/hmac) and that message; after a successful handshake
+     the client keeps reading (buffer sizes ks): the data already sent behind the hello. *)
 From Coq Require Import List ZArith Bool.
 From TD Require Export Lib.HexBytes.
 From TD Require Import Lib.GoSem Lib.RunLib Model.FakeTls.
@@ -17,7 +18,8 @@ Inductive case :=
 | CStream (ws : list (Z * Z * Z)) (wire_len wire_adler : Z) (recs : list (Z * Z)) (ks : list Z)
           (data_ok : bool) (stop : Z)
 | CRead (wire : list Z) (ks : list Z) (data : list Z) (stop : Z)
-| CHello (client_random secret stream msg hm : list Z) (res : Z) (rest_len : Z).
+| CHello (client_random secret stream msg hm : list Z) (res : Z) (rest_len : Z)
+         (ks : list Z) (data : list Z) (stop : Z).
 
 Fixpoint pat (n : nat) (a b : Z) : list Z :=
   match n with O => [] | S k => (a mod 256) :: pat k (a + b) b end.
@@ -52,10 +54,13 @@ Definition ok (c : case) : bool :=
   | CRead wire ks data stop =>
     let '(d, st) := drain (S (length ks)) (ks_fun ks) 0 ([], wire) in
     zlist_eqb d data && (kind_of st =? stop)
-  | CHello cr secret stream msg hm res rest_len =>
+  | CHello cr secret stream msg hm res rest_len ks data stop =>
     let hmac := fun key m => if zlist_eqb key secret && zlist_eqb m msg then hm else [] in
     match read_server_hello hmac cr secret stream with
-    | Ok rest => (res =? 0) && (zlen rest =? rest_len)
+    | Ok rest =>
+      (* the handshake consumed exactly the hello; the connection then reads what follows it *)
+      let '(d, st) := drain (S (length ks)) (ks_fun ks) 0 ([], rest) in
+      (res =? 0) && (zlen rest =? rest_len) && zlist_eqb d data && (kind_of st =? stop)
     | Err e => kind_of e =? res
     | Panic => res =? 9
     end
